@@ -18,22 +18,18 @@ PROPS = {
     ),
     "C02": dict(
         level="exploration",
-        technique="bounded run-time contract checking of DirectedHypergraph against a ghost map (source set, target set) -> (weight, metadata); deductive obligations where contracts exist",
-        text=("Every public mutator/query of DirectedHypergraph is executed on all histories of a stated small scope and on seeded random "
-              "histories, and compared after every prefix with an independent abstract model; deductive obligations (hv/contracts) cover "
-              "the functions listed in the evidence. Claimed as exploration."),
+        technique="contract-based deductive verification (AST->VC, z3) of the DirectedHypergraph methods + bounded run-time contract checking against a ghost map (source set, target set) -> (weight, metadata)",
+        text=("Mutators and role-specific queries of DirectedHypergraph carry contracts over the abstract view with (source, target) keys and a representation invariant per adjacency map (each hyperedge listed exactly once per role); the obligations are discharged for all inputs and histories. Batched forms, neighbours and the remaining queries are covered by the bounded tier (all histories of a stated small scope plus seeded random ones, compared after every prefix with an independent abstract model). Claimed as exploration."),
         design_ref="DESIGN.md §7 C02", assumptions=[]),
     "C03": dict(
         level="exploration",
-        technique="bounded run-time contract checking of TemporalHypergraph against a ghost map (time, node set) -> (weight, metadata), incl. windows, snapshots, aggregate",
-        text=("All histories of a stated small scope plus seeded random histories; after every prefix all queries, 20 time windows, the per-time "
-              "snapshots and aggregate(w) are compared with an independent abstract model, and derivations are shown not to change the object."),
+        technique="contract-based deductive verification (AST->VC, z3) of the TemporalHypergraph methods incl. the half-open time window + bounded run-time contract checking against a ghost map (time, node set) -> (weight, metadata)",
+        text=("Mutators (negative times rejected), node removal with and without shrinking, and queries incl. get_edges(time_window=(a,b)) = exactly the records with a <= t < b are discharged deductively; snapshots, aggregate(w), non-integer times and the remaining queries are covered by the bounded tier over all histories of a stated small scope plus seeded random histories, 20 windows, 4 widths, with derivations shown not to change the object. Claimed as exploration."),
         design_ref="DESIGN.md §7 C03", assumptions=[]),
     "C04": dict(
         level="exploration",
-        technique="bounded run-time contract checking of MultiplexHypergraph against a ghost map (node set, layer) -> (weight, metadata), incl. aggregation and overlap",
-        text=("All histories of a stated small scope plus seeded random histories; after every prefix all queries, the aggregated hypergraph and "
-              "the overlap are compared with an independent abstract model, and both derivations are shown to leave the multiplex unchanged."),
+        technique="contract-based deductive verification (AST->VC, z3) of the MultiplexHypergraph methods, the aggregated hypergraph and the overlap (fold sums) + bounded run-time contract checking against a ghost map (node set, layer) -> (weight, metadata)",
+        text=("Mutators, node removal with and without shrinking, queries, aggregated_hypergraph (distinct node sets, weights = sum over the records, defined by fold axioms) and edge_overlap (sum over the layers in use) are discharged deductively; batched insertion and everything else is covered by the bounded tier over all histories of a stated small scope plus seeded random ones, incl. the check that aggregation and overlap leave the multiplex (and its metadata) unchanged. Claimed as exploration."),
         design_ref="DESIGN.md §7 C04", assumptions=[]),
 }
 
@@ -46,8 +42,8 @@ PROPS.update({
               "File I/O, json and pickle are outside the deductive engine; the round-trip contract (same type, nodes, records, weightedness, weights, all metadata; saved "
               "object unchanged) is evaluated on an exhaustively enumerated small scope plus seeded random objects; hMETIS files are generated from a grammar, HIF documents "
               "from the record types. Bounded, not a proof.", "DESIGN.md §7 C06"),
-    "C07": _b("bounded run-time contract checking of hash_hypergraph: equal-content history pairs hash equal, every single-element edit hashes different, hashing is pure; "
-              "the table-domain invariants the hash relies on are deductive obligations of C01-C04",
+    "C07": _b("contract-based deductive verification (AST->VC, z3) of the table-domain invariants the hash relies on, after every mutator of the four containers + bounded run-time contract "
+              "checking of hash_hypergraph: equal-content history pairs hash equal, every single-element edit hashes different, hashing is pure",
               "Equality direction over 15 history variants per content (orders, detours through removed hyperedges and nodes), difference direction over every single edit, for all "
               "four container types on an enumerated small scope plus random contents. SHA-256 collision resistance is assumed.", "DESIGN.md §7 C07"),
     "C08": dict(level="exploration",
@@ -92,7 +88,8 @@ PROPS.update({
               "Floating-point numpy code is outside the deductive engine. The closed forms are executed on arrays of sympy symbols and compared as polynomials with the brute-force sums "
               "over all possible hyperedges: valid for all real u, w but only for the enumerated shapes (N <= 4 quick / 6 thorough, K <= 3). fit() is checked on a grid of hypergraphs, seeds, "
               "K, priors and n_iter.", "DESIGN.md §7 C15"),
-    "C16": _b("bounded run-time contract checking of the sampler's outputs over configurations, burn-in/thinning lengths and seeds",
+    "C16": _b("contract-based deductive verification (AST->VC, z3) of the pairwise-reshuffle kernel for every outcome of rng.choice + bounded run-time contract checking of the sampler's "
+              "outputs over configurations, burn-in/thinning lengths and seeds",
               "numpy Generator / iterator code: bounded exploration. Every sampled hypergraph is checked for the statement's clauses; the conditioning clauses on all initial hypergraphs of a "
               "small scope and on random degree/size sequences; same seed => same sequence.", "DESIGN.md §7 C16"),
     "C17": _b("bounded run-time contract checking of HypergraphMT.fit / HySC.fit outputs (shapes, ranges, isolated rows, bookkeeping, ascent, agreement with the definition, reproducibility)",
